@@ -224,21 +224,34 @@ def state_problems(case):
     if hist and "mass" in case["forms"]:
         try:
             geo = make_geo("identity", M.dim)
-            hs_w = hierarchical.HSpace(c04._G["kvs"], truncate=False, disparity=c04._G["disp"], bdspecs=[(0, 0)])
-            for ev in hist[:-1]:
-                hs_w.refine(c04.marks_of(ev)[0])
-            got_general("mass", M.dim, hs_w, geo)
-            hs_w.dirichlet_dofs()
-            hs_w.refine(c04.marks_of(hist[-1])[0])
-            A_w = got_general("mass", M.dim, hs_w, geo)
             hs_f = hierarchical.HSpace(c04._G["kvs"], truncate=False, disparity=c04._G["disp"], bdspecs=[(0, 0)])
             for ev in hist:
                 hs_f.refine(c04.marks_of(ev)[0])
             A_f = got_general("mass", M.dim, hs_f, geo)
-            ncmp += 1
-            if A_w.shape != A_f.shape or np.abs(A_w - A_f).max() > TOL * max(np.abs(A_f).max(), 1e-300):
-                probs.append(("hier:warm-object", "assembling, refining the same space object again and assembling again gives a "
-                              "different matrix than assembling over the freshly built space (stale index caches)"))
+            # variants of the last refinement call: (a) as recorded, (b) split into two calls (first cell, then the
+            # rest) so that the second call does not add a level -- with an assembly in between every two calls
+            last = hist[-1]
+            variants = [[last]]
+            if len(last) >= 2:
+                variants.append([last[:1], last[1:]])
+                variants.append([last[-1:], last[:-1]])
+            for var in variants:
+                hs_w = hierarchical.HSpace(c04._G["kvs"], truncate=False, disparity=c04._G["disp"], bdspecs=[(0, 0)])
+                for ev in hist[:-1]:
+                    hs_w.refine(c04.marks_of(ev)[0])
+                for ev in var:
+                    got_general("mass", M.dim, hs_w, geo)
+                    hs_w.dirichlet_dofs()
+                    cells = [(lv, c) for lv, c in ev if lv < hs_w.numlevels and tuple(c) in {tuple(int(x) for x in cc) for cc in hs_w.active_cells(lv)}]
+                    if cells:
+                        hs_w.refine(c04.marks_of(tuple(cells))[0])
+                A_w = got_general("mass", M.dim, hs_w, geo)
+                ncmp += 1
+                if A_w.shape != A_f.shape or np.abs(A_w - A_f).max() > TOL * max(np.abs(A_f).max(), 1e-300):
+                    if hs_w.numdofs == hs_f.numdofs or len(var) == 1:
+                        probs.append(("hier:warm-object", "assembling, refining the same space object again (%d call(s)) and assembling "
+                                      "again gives a different matrix than assembling over the freshly built space (stale index caches)" % len(var)))
+                        break
         except Exception as e:
             import traceback
             tb = traceback.extract_tb(e.__traceback__)
